@@ -152,6 +152,24 @@ ROUND7 = {
     "C19": " A newer status hint is never dropped in favour of an older pending one.",
 }
 
+# clauses added by the eighth seed round
+ROUND8 = {
+    "C02": " Request frames are handed to the socket completely (write_all).",
+    "C03": " The hash finalisation mixes in the whole key length.",
+    "C04": " The rack count of a datacenter and the NTS walker agree that a rack-less node is a rack of its own.",
+    "C05": " An explicit policy-level location preference (also `no datacenter`) wins over the one inherited with the request.",
+    "C07": " An unsharded previous coordinator leaves the rest of the page's plan whatever shard is proposed; every page fetch gets the request's full timeout.",
+    "C09": " A batch rebuilt by the driver keeps the caller's configuration (timestamp, tracing).",
+    "C10": " Only headers with the response bit and protocol version exactly 4 pass validation.",
+    "C12": " The replica lists the first attempt is picked from are the walkers' own, precomputed or not.",
+    "C13": " The plan of one page never names the previous coordinator twice.",
+    "C14": " Every page of a paged execution is type-checked against the metadata that came with it.",
+    "C15": " Every tablet learnt from the server goes through its table's overlap removal.",
+    "C16": " By-name row serialization writes a cell for every listed column; the ordered type_check checks the type of every field it matches.",
+    "C17": " The generated ordered type_check checks the CQL type of every UDT field it matches to a Rust field.",
+    "C20": " A pool never forgets the keyspace it was told.",
+}
+
 NOT_APPLICABLE = {
 }
 
@@ -170,7 +188,7 @@ def main():
                 "evidence_file": "/verif/evidence/%s.json" % pid,
                 "replay_cmd_template": "./check explain {path}",
                 "engine": "scyllalint",
-                "level_claimed": {"category": "other", "text": text + ROUND4.get(pid, "") + ROUND5.get(pid, "") + ROUND6.get(pid, "") + ROUND7.get(pid, ""), "design_ref": ref},
+                "level_claimed": {"category": "other", "text": text + ROUND4.get(pid, "") + ROUND5.get(pid, "") + ROUND6.get(pid, "") + ROUND7.get(pid, "") + ROUND8.get(pid, ""), "design_ref": ref},
                 "level_note": note,
                 "technique": tech,
             })
